@@ -2591,7 +2591,22 @@ def silent_exception(facts, mm, f, users):
         guards = gg.guards_of(ev)
         num = any(label is True and 'register_constant_operation' in show(cond) or 'NUMBER' in show(cond) for cond, label, cn in guards)
         if dca and num:
-            return True, 'the NUMBER node was converted by strToInt during dispatchCallArgs, which dominates this call'
+            # ... and dispatchCallArgs converts EVERY argument it hands out: each register it appends to the list was filled by a call of
+            # dispatchValue that dominates the append (seed C04k-2 skipped the conversion for the constant operand of the built-in sugar,
+            # so the literal was only ever read by the silent conversion)
+            for fn_ in [x for x in facts.functions if x['q'] == dca[0].e.get('callee') and x.get('body') is not None and x['file'] == f['file']]:
+                gq = mm.cfg(fn_)
+                pnames = {p_.get('d') for p_ in fn_['params']}
+                dvs = [x for x in gq.calls() if (x.e.get('callee') or '') == 'dispatchValue']
+                pbs = [x for x in gq.calls() if (is_call(x.e, '::push_back') or is_call(x.e, '::emplace_back')) and x.e.get('obj') is not None and
+                       strip_casts(x.e['obj']).get('d') in pnames]
+                if not pbs:
+                    return False, 'cannot see where %s appends the argument registers' % fn_['q']
+                for pb in pbs:
+                    if not any(gq.dominates(dv, pb) for dv in dvs):
+                        return False, ('%s appends an argument register (line %d) on a path on which dispatchValue was not called for that argument: a NUMBER operand that is '
+                                       'skipped there is never range-checked, the silent re-read in the CALL case then accepts a literal of 2^31-1 or more' % (fn_['q'], pb.e['loc'][0]))
+            return True, 'the NUMBER node was converted by strToInt during dispatchCallArgs (on every path that appends an argument register), which dominates this call'
         return False, 'not dominated by dispatchCallArgs + NUMBER-shape guard'
     if f['file'].endswith('macro.cpp'):
         # get_replacement INSERTION index: extract_macros validated every INSERTION token with the checked conversion
